@@ -294,6 +294,9 @@ def bind(
     )
 
     omit, _ = unpack_collections(omit)
+    if assume_layers and not all(hasattr(coll, "__dask_layers__") for coll in omit):
+        # e.g. dask.dataframe collections are not made of HighLevelGraph layers
+        assume_layers = False
     if assume_layers:
         # Set of all the top-level layers of the collections in omit
         omit_layers = {layer for coll in omit for layer in coll.__dask_layers__()}
